@@ -854,6 +854,9 @@ fn nt_c17(c: &Case, _out: &Outcome, h: &Hist) -> bool {
 /// requesting task, query sources, and port clones that gain connections at
 /// run time.
 fn gen_c14(rng: &mut Rng, thorough: bool) -> Case {
+    if rng.pct(15) {
+        return gen_c14_set(rng);
+    }
     let o = BenchOpts {
         min_nodes: 3,
         max_nodes: if thorough { 7 } else { 6 },
@@ -985,14 +988,48 @@ fn gen_c14(rng: &mut Rng, thorough: bool) -> Case {
     c.profile = "queries".into();
     c
 }
+/// C14(b): the task set in isolation (15 % of the C14 cases).
+fn gen_c14_set(rng: &mut Rng) -> Case {
+    let len = rng.range(1, 6) as u8;
+    let nthreads = rng.range(1, 3) as usize;
+    let mut wakers: Vec<Vec<(u8, bool)>> = vec![Vec::new(); nthreads];
+    // every index at least once, some twice
+    for i in 0..len {
+        let t = rng.usize(nthreads);
+        wakers[t].push((i, rng.pct(50)));
+        if rng.pct(25) {
+            let t2 = rng.usize(nthreads);
+            wakers[t2].push((i, rng.pct(50)));
+        }
+    }
+    for w in wakers.iter_mut() {
+        rng.shuffle(w);
+    }
+    let stale = if rng.pct(30) { (0..rng.range(1, 3)).map(|_| rng.below(len as u64) as u8).collect() } else { vec![] };
+    let notify_count = rng.range(1, len as u64) as u8;
+    comp_case(rng, "taskset", Comp::Set(SetCase { len, wakers, notify_count, stale }))
+}
+
 fn check_c14(case: &Case, out: &Outcome, h: &Hist, _g: &mut Group) -> Vec<Violation> {
+    if let Some(Comp::Set(t)) = case.comp.as_ref() {
+        let mut v = oracle::common(case, out, h);
+        if out.failure.is_none() {
+            v.extend(ocomp::set_rules(t, &out.log));
+        }
+        return v;
+    }
     let mut v = oracle::common(case, out, h);
     v.extend(flow::query_replies(case, h));
     v.extend(flow::conservation(case, h));
     v.extend(flow::all_ok(h));
     v
 }
-fn nt_c14(_c: &Case, _out: &Outcome, h: &Hist) -> bool {
+fn nt_c14(c: &Case, out: &Outcome, h: &Hist) -> bool {
+    if c.comp.is_some() {
+        // the owner had to wait for a notification at least once
+        return out.log.iter().any(|e| matches!(e, Ev::Comp(CompEv::SetPending { .. })));
+    }
+    let _ = out;
     // a query with at least two replies completed, or a connection was added at run time and used
     h.sends.iter().any(|s| s.query && s.replies.len() >= 2) || !flow::dynamic_connections(h).is_empty()
 }
